@@ -503,6 +503,63 @@ def main():
             if not (np.abs(mti.C - refi.C).max() <= 1e-12 * np.abs(refi.C).max()):
                 res.fail("parameter ramped in small increments not seen", f"after 50 increments of 2e-6 (relative) of El the law differs from a new law with the final value by {np.abs(mti.C - refi.C).max() / np.abs(refi.C).max():.2e}", dict(dim=dim))
 
+        # the law is the law of the parameters the material REPORTS: whatever a caller does with an array obtained from the material
+        # (a read hands out the values; writing into what was handed out is either invisible or followed by the law)
+        for kindr in ("iso", "ti", "ortho"):
+            dimr = 3
+            pr = draw(rng, kindr)
+            namer = {"iso": "E", "ti": "Gl", "ortho": "E2"}[kindr]
+            fieldr = np.array([float(pr[namer]) * (1 + 0.125 * k_) for k_ in range(4)])
+            matr = law_3d(kindr, dict(pr, **{namer: fieldr.copy()}), dim=dimr, ps=False)
+            _ = matr.C, matr.S
+            identr = dict(law=kindr, dim=dimr, parameter=namer, ops=[f"x = material.{namer}", "x[1] *= 0.1", "material.C"])
+            res.case((rep, "edit-what-a-read-returned", kindr))
+            try:
+                got_ = getattr(matr, namer)
+                got_[1] *= 0.1
+                rep_ = np.asarray(getattr(matr, namer), float)
+                Cr, Sr = np.asarray(matr.C), np.asarray(matr.S)
+                for e in range(4):
+                    refr = law_3d(kindr, dict(pr, **{namer: float(rep_[e])}), dim=dimr, ps=False)
+                    if not (np.abs(Cr[e] - refr.C).max() <= 1e-9 * np.abs(refr.C).max()) or not (np.abs(Sr[e] - refr.S).max() <= 1e-9 * np.abs(refr.S).max()):
+                        res.fail(f"law differs from the parameters the material reports law={kindr}",
+                                 f"after `x = material.{namer}; x[1] *= 0.1` the material reports {namer} = {rep_.tolist()} while entry {e} of C / S is the law of another value "
+                                 f"(relative difference {np.abs(Cr[e] - refr.C).max() / np.abs(refr.C).max():.2e})", identr)
+                        break
+            except Exception as ex:  # noqa: BLE001
+                res.fail(f"editing what a parameter read returned raises law={kindr}", f"{type(ex).__name__}: {str(ex)[:150]}", identr)
+        # every way of reading the law follows a parameter change, whichever is used FIRST after the change: C, S, and the Walpole decomposition
+        for kindw in ("ti", "ortho"):
+            pw = draw(rng, kindw)
+            namew = {"ti": "El", "ortho": "E1"}[kindw]
+            for first in ("C", "Walpole"):
+                for fieldw in (False,):       # (a field on one parameter only is refused by Walpole_Decomposition itself)
+                    identw = dict(law=kindw, parameter=namew, field=fieldw, first_read_after_the_change=first)
+                    res.case((rep, "walpole-after-change", kindw, first, fieldw))
+                    try:
+                        v0 = np.array([float(pw[namew]), float(pw[namew]) * 1.25]) if fieldw else float(pw[namew])
+                        matw = law_3d(kindw, dict(pw, **{namew: v0}), dim=3, ps=False)
+                        _ = matw.C, matw.S
+                        ci0, Ei0 = matw.Walpole_Decomposition()
+                        setattr(matw, namew, v0 * 2)
+                        if first == "C":
+                            _ = matw.C
+                        ciw, Eiw = matw.Walpole_Decomposition()
+                        Cw = np.asarray(matw.C, float)
+                        ciw, Eiw = np.asarray(ciw, float), np.asarray(Eiw, float)
+                        sumw = np.einsum("i...,ijk->...jk", ciw, Eiw) if ciw.ndim > 1 else np.einsum("i,ijk->jk", ciw, Eiw)
+                        reffw = law_3d(kindw, dict(pw, **{namew: (v0 * 2)[0] if fieldw else v0 * 2}), dim=3, ps=False).C
+                        gotw = sumw[0] if fieldw else sumw
+                        Cw0 = Cw[0] if fieldw else Cw
+                        if not (np.abs(gotw - reffw).max() <= 1e-9 * np.abs(reffw).max()) or not (np.abs(Cw0 - reffw).max() <= 1e-9 * np.abs(reffw).max()):
+                            res.fail(f"Walpole decomposition does not follow a parameter change law={kindw}",
+                                     f"after material.{namew} was doubled, sum c_i E_i differs from the law of the new parameters by {np.abs(gotw - reffw).max() / np.abs(reffw).max():.2e} "
+                                     f"(C itself by {np.abs(Cw0 - reffw).max() / np.abs(reffw).max():.2e}) when the first read after the change is {first}", identw)
+                    except AssertionError as ex:
+                        res.fail(f"Walpole decomposition does not follow a parameter change law={kindw}", f"AssertionError inside Walpole_Decomposition() after material.{namew} was doubled (first read: {first}): {str(ex)[:100]}", identw)
+                    except Exception as ex:  # noqa: BLE001
+                        res.fail(f"Walpole decomposition after a parameter change raises law={kindw}", f"{type(ex).__name__}: {str(ex)[:150]}", identw)
+
     answers = driver.ask(lines)
     if answers is None:
         res.disagree("driver", "model driver does not run: " + getattr(driver, "error", "")[:400])
